@@ -3,6 +3,7 @@ package main
 import (
 	"fmt"
 	"go/ast"
+	"os"
 	"strconv"
 	"strings"
 	"sync"
@@ -24,6 +25,16 @@ func (e *Env) newBehaveRunner() (*behave.Runner, error) {
 	}
 	shared["drv/drv.go"] = behave.DrvSrc
 	shared["tr/tr.go"] = behave.TrSrc
+	if e.Rep.Thorough() && behave.PrivateCache == "" {
+		// thorough: a disposable build cache on disk (removed in main after the check), so that the user's cache does not grow by
+		// tens of GB; the standard library is compiled into it once (about half a minute)
+		for _, base := range []string{"/var/tmp", os.TempDir()} {
+			if d, err := os.MkdirTemp(base, "verif-gocache-"); err == nil {
+				behave.PrivateCache = d
+				break
+			}
+		}
+	}
 	r := &behave.Runner{ModRoot: e.WS.Root, ModPath: scen.ModPath, Uni: tc.NewUniverse(scen.ModPath, shared), Batch: 200, Workers: e.Workers}
 	return r, r.Prepare()
 }
